@@ -4,7 +4,7 @@
     function [crc] (hash/crc32 in the code). *)
 From Coq Require Import NArith List.
 From AGH Require Import Base.Run Model.RuleListParser Model.Refresh Proofs.RuleListParser Proofs.RuleListWrite
-  Proofs.Refresh Proofs.RefreshEngine Proofs.RefreshWrite Proofs.RefreshRestart.
+  Proofs.Refresh Proofs.RefreshEngine Proofs.RefreshWrite Proofs.RefreshRestart Proofs.RefreshWhole.
 Import ListNotations.
 Local Open Scope N_scope.
 
@@ -654,3 +654,34 @@ Example C15_load_disabled_witness :
   lookup 1 (e_block (r_engine LoadDisabled.st_on')) = None /\
   fget 1 (r_files LoadDisabled.st_later) = None.
 Proof. exact load_disabled_example. Qed.
+
+(** ** The whole body (round 7)
+
+    [C15_written_is_normal_form] says: what is stored is the output of the
+    parse of [d], where [delivers o d re]: [d] is what the reader handed to the
+    parser.  That [d] is the WHOLE body the source delivered is a property of
+    the reader [updateIntl] puts around it: none in the code.  As a statement
+    about that reader: true for the identity and for a limiting reader that
+    ends in an error at its limit (C14_err_limit_faithful is about that kind),
+    false for one that ends in a plain EOF there (seeded change C15-M:
+    io.LimitReader): the normal form of a prefix, its last line a fragment, is
+    stored as a successful refresh. *)
+Theorem C15_whole_body_stored : forall crc, whole_body_statement crc (fun o => o).
+Proof. exact whole_body_stored. Qed.
+Print Assumptions C15_whole_body_stored.
+
+Theorem C15_whole_body_stored_err_limit : forall crc limit, whole_body_statement crc (err_limiting limit).
+Proof. exact whole_body_stored_err_limit. Qed.
+Print Assumptions C15_whole_body_stored_err_limit.
+
+Theorem C15_whole_body_eof_limit_refuted : ~ whole_body_statement crc32_update (eof_limiting 9).
+Proof. exact whole_body_eof_limit_refuted. Qed.
+Print Assumptions C15_whole_body_eof_limit_refuted.
+
+Example C15_eof_limit_witness :
+  snd (parse crc32_update Truncated.body false) = None /\
+  output (fst (parse crc32_update Truncated.body false)) = Truncated.body /\
+  u_updated (fst Truncated.cut) = true /\ u_err (fst Truncated.cut) = false /\
+  f_count (u_list (fst Truncated.cut)) = 2 /\
+  fget 1 (snd Truncated.cut) = Some (RExamples.good ++ [124;124;112;10]).
+Proof. exact eof_limit_example. Qed.
